@@ -85,7 +85,7 @@ def check(tier, seed):
             d = hopdist(g[0], [(u, v) for u, v, _ in g[1]], s, t)
             h = c.rng.choice(["inf", "0", "1", "2", "3"] + ([str(d), str(max(0, d - 1)), str(d + 1)] if d is not None else ["7"]))
             cases.append("B %d %d %s %s" % (s, t, h, gen.graph_tokens(g)))
-        io = lib.run_lines([exe], cases)
+        io = lib.run_lines([exe], cases, par=1)      # ONE process for the whole stream: a long history of calls (tens of thousands of BFS queries) in one thread
         mcases = []
         for cs, o in zip(cases, io):
             t = cs.split()
